@@ -13,6 +13,16 @@ ALLOWED_AXIOMS = {
 }
 
 PROPS = {
+    "C16": {
+        "n": {"quick": 600, "thorough": 15000},
+        "shards": 16,
+        "trusted": [
+            "completion model: transcription of completion.go (context determination, candidate narrowing, query extraction, fuzzy scoring on runes with unicode.ToLower from a generated table, prefix filter, ranking, truncation, text-edit start); the analyzer's name lists, by-prefix index and usage counts are inputs obtained through the exported analyzer API on the journal the server resolved",
+            "date items (clock) are excluded from the comparison",
+        ],
+        "assumptions": ["labels of one candidate list are distinct", "the typed fragment of the oracle is the model's extractQueryText (tied to the implementation on every request)"],
+        "explanation": "theorems on the filtering / ranking / truncation core (Props/C16.v); tie on labels in order, on two maxResults values and on the edit start for every request; oracle: six clauses of the property on the implementation's answers",
+    },
     "C07": {
         "n": {"quick": 2500, "thorough": 60000},
         "shards": 16,
